@@ -24,6 +24,15 @@ two views:
   pl-os       durable name space, journal files keep every un-synced write, other files durable
   pl-torn-h   as pl-os, but the write made by event k is cut at half its length
   pl-torn-1   as pl-os, but the write made by event k loses its last byte
+  pl-strict-drop / pl-strict-keepns
+              as pl-drop / pl-keepns under a stricter file-system contract, see below; ADVISORY
+
+Renaming a freshly written, not yet fsynced file over an existing one (lsm-tree's
+`rewrite_atomic` does that with the `levels` manifest: write temp, rename, *then* fsync) is
+treated as flushing the new file's data first - what ext4 does by default (auto_da_alloc,
+data=ordered).  The pl-strict-* variants drop that assumption (XFS, ext4 data=writeback or
+noauto_da_alloc may persist the rename before the data): their verdicts are reported as
+advisories, never as violations, because no power can be cut in this sandbox to demonstrate them.
 
 Memory-mapped CAS files are invisible to strace (cacache write_hash): a CAS content file is
 taken from the final directory of the recorded run from the event that renames it into place on
@@ -229,13 +238,15 @@ def parse(logpath, root, ackpath):
 
 
 class Inode:
-    __slots__ = ("data", "size", "ddata", "dsize", "unsynced", "ver", "ext")
+    __slots__ = ("data", "size", "ddata", "dsize", "sdata", "ssize", "unsynced", "ver", "ext")
 
     def __init__(self):
         self.data = bytearray()   # volatile content up to the highest written offset
         self.size = 0             # volatile logical size (>= len(data): the rest is a hole)
         self.ddata = b""          # durable content / size (last fsync of this inode)
         self.dsize = 0
+        self.sdata = b""          # durable content under the strict contract (explicit fsync only)
+        self.ssize = 0
         self.unsynced = []        # (off, bytes, event index) written since the last fsync
         self.ver = 0              # number of fsyncs (for fingerprints)
         self.ext = None           # content comes from the final directory (mmap-written CAS file)
@@ -307,6 +318,9 @@ class Replayer:
             if n == "dir":
                 for q in [q for q in self.ns if q.startswith(ev["p"] + "/")]:
                     self.ns[ev["q"] + q[len(ev["p"]):]] = self.ns.pop(q)
+            elif isinstance(self.ns.get(ev["q"]), Inode) and not ev["q"].startswith("cacache"):
+                # replace-by-rename: the default contract flushes the new file's data first
+                n.ddata, n.dsize = bytes(n.data), n.size
             elif ev["q"].startswith("cacache/content-") and self.final is not None:
                 # written through a shared mapping: the bytes are whatever the process stored
                 # before renaming the file into place, i.e. what the final directory holds
@@ -319,8 +333,8 @@ class Replayer:
         elif e == "fsync":
             n = self.ns.get(ev["p"]) if ev["p"] else "dir"
             if isinstance(n, Inode):
-                n.ddata = bytes(n.data)
-                n.dsize = n.size
+                n.ddata = n.sdata = bytes(n.data)
+                n.dsize = n.ssize = n.size
                 n.unsynced = []
                 n.ver += 1
             # ordered metadata journal: every earlier name-space operation is durable now
@@ -341,6 +355,8 @@ class Replayer:
             return b, len(b)
         if mode == "vol":
             return bytes(n.data), n.size
+        if mode == "strict":
+            return n.sdata, n.ssize
         if mode == "dur" or not n.unsynced:
             return n.ddata, n.dsize
         b = bytearray(n.ddata)
@@ -362,7 +378,8 @@ class Replayer:
         """descriptors of the power-loss images for a crash right after the last applied event"""
         ev = self.last
         out = [("pl-drop", "dns", "dur", None), ("pl-keepns", "ns", "dur", None),
-               ("pl-os", "dns", "os", None)]
+               ("pl-os", "dns", "os", None),
+               ("pl-strict-drop", "dns", "strict", None), ("pl-strict-keepns", "ns", "strict", None)]
         if ev is not None and ev["e"] == "write" and is_journal(ev["p"]) and len(ev["data"]) > 1:
             out.append(("pl-torn-h", "dns", "os", (self.k, len(ev["data"]) // 2)))
             out.append(("pl-torn-1", "dns", "os", (self.k, len(ev["data"]) - 1)))
